@@ -175,6 +175,13 @@ func c05Pool(unitIDs map[string]uint64) []c05Val {
 	add(c05Date(2020, 1, 1, 0), c05Date(2020, 1, 1, 1), c05Date(2020, 1, 1, 2), c05Date(2020, 1, 2, 2), c05Date(2020, 2, 1, 1), c05Date(2021, 1, 1, 0), c05Date(2019, 12, 31, 2))
 	add(c05Val{coq: "VDate " + zlist(2020, 1, 1), env: &dtpb.Date{ValueUs: 1577836800000000, Precision: dtpb.Date_DAY, Timezone: "UTC"}, kind: "FHIR.date"},
 		c05Val{coq: "VDate " + zlist(2020, 1), env: &dtpb.Date{ValueUs: 1577836800000000, Precision: dtpb.Date_MONTH, Timezone: "UTC"}, kind: "FHIR.date"})
+	// date elements whose zone is not UTC (the JSON parser stores dates in its default zone): the same calendar day
+	add(c05Val{coq: "VDate " + zlist(2020, 1, 1), env: &dtpb.Date{ValueUs: 1577817000000000, Precision: dtpb.Date_DAY, Timezone: "+05:30"}, kind: "FHIR.date/+05:30"},
+		c05Val{coq: "VDate " + zlist(2020, 1, 1), env: &dtpb.Date{ValueUs: 1577876400000000, Precision: dtpb.Date_DAY, Timezone: "-11:00"}, kind: "FHIR.date/-11:00"},
+		c05Val{coq: "VDate " + zlist(2020, 1), env: &dtpb.Date{ValueUs: 1577817000000000, Precision: dtpb.Date_MONTH, Timezone: "+05:30"}, kind: "FHIR.date/+05:30"},
+		c05Val{coq: "VDate " + zlist(2020), env: &dtpb.Date{ValueUs: 1577876400000000, Precision: dtpb.Date_YEAR, Timezone: "-11:00"}, kind: "FHIR.date/-11:00"},
+		c05Val{coq: "VDateTime " + zlist(2020, 1, 1), env: &dtpb.DateTime{ValueUs: 1577817000000000, Precision: dtpb.DateTime_DAY, Timezone: "+05:30"}, kind: "FHIR.dateTime/day+05:30"},
+		c05Val{coq: "VDateTime " + zlist(2020, 1), env: &dtpb.DateTime{ValueUs: 1577876400000000, Precision: dtpb.DateTime_MONTH, Timezone: "-11:00"}, kind: "FHIR.dateTime/month-11:00"})
 	// dateTimes: every precision x offsets
 	for prec := 0; prec <= 6; prec++ {
 		offs := []string{""}
